@@ -793,6 +793,17 @@ func (cnf *Configurator) addOrUpdateTransportServer(transportServerEx *Transport
 		}
 		return changed || ptChanged, warnings, nil
 	}
+
+	// the TransportServer is not (or no longer) a TLS Passthrough one: drop the pair it may have left behind
+	key := generateNamespaceNameKey(&transportServerEx.TransportServer.ObjectMeta)
+	if _, exists := cnf.tlsPassthroughPairs[key]; exists {
+		delete(cnf.tlsPassthroughPairs, key)
+		ptChanged, err := cnf.updateTLSPassthroughHostsConfig()
+		if err != nil {
+			return false, nil, err
+		}
+		return changed || ptChanged, warnings, nil
+	}
 	return changed, warnings, nil
 }
 
